@@ -14,6 +14,11 @@ def jobs(tier):
                    defines=["-DH_INCLUDE_NEW_PARAMETER"], unwind=4, union_struct=True, kind="proof",
                    canary=True, functions=["check_single_frequency_range", "_vnacal_get_parameter_frange"],
                    bound="none: all doubles", timeout=900))
+    J.append(V.Job("range.correlated", H, "h_range_correlated",
+                   ["vnacal_parameter.c", "vnacal_layout.c"] + ERR,
+                   defines=["-DH_INCLUDE_NEW_PARAMETER"], unwind=4, union_struct=True, kind="proof",
+                   functions=["check_single_frequency_range", "_vnacal_get_parameter_frange (correlated: sigma grid)"],
+                   bound="none: all doubles (two-point sigma grid, scalar guess)", timeout=900))
     J.append(V.Job("range.m_error", H, "h_range_m_error",
                    ["vnacal_new_set_m_error.c", "vnacal_layout.c"] + ERR,
                    defines=["-DH_M_ERROR"], unwind=4, union_struct=True, kind="proof", canary=True,
